@@ -25,6 +25,8 @@ def cases(tier):
         for m in (1, 2, 3):
             cs.append(dict(name=f"wiring_{agg}_m{m}", fn="wiring", args=dict(agg=agg, m=m), weight=m * m))
         cs.append(dict(name=f"bad_pref_{agg}", fn="bad_pref", args=dict(agg=agg)))
+        for m in (1, 2):  # m = 3: z3 returns unknown on the degree-8 substitution (measured); covered by the wiring obligations + KKT lemmas
+            cs.append(dict(name=f"projection_{agg}_m{m}", fn="projection", args=dict(agg=agg, m=m), weight=m ** 3))
     for m in (1, 2, 3):
         cs.append(dict(name=f"kkt_nonneg_m{m}", fn="kkt", args=dict(m=m, lemma="nonneg"), weight=m * 3))
         cs.append(dict(name=f"kkt_identity_m{m}", fn="kkt", args=dict(m=m, lemma="identity"), weight=m))
@@ -72,6 +74,44 @@ def case_wiring(sp, agg, m):
                                                            eq_all(c["h"], [-x for x in ucall])), cex))
         obs.append(Ob("qp_solver_is_the_configured_one", c["solver"] == "quadprog", cex))
     comb = [rsum(c["v"][i] for c in calls) for i in range(m)]
+    obs.append(Ob("weights_are_the_sum_of_the_projected_weight_vectors", eq_all(w, comb), cex))
+    return obs
+
+
+def case_projection(sp, agg, m):
+    """end to end: the answers of the kernel (any KKT point of the program the code posed) are KKT points of the program the PROPERTY states
+    (matrix G/s^2 + reg_eps I, resp. reg_eps I below norm_eps; constraint v >= u_call) and the weights are their sum.  With uniqueness (kkt_unique)
+    this says A(J) is exactly the stated projection; a counterexample is a matrix on which the real output differs from it."""
+    G, hint, sig = spectral_gram(m)
+    set_kernels(eigbasis=hint)
+    eps, reg = named("norm_eps"), named("reg_eps")
+    assume(eps > 0)
+    assume(reg > 0)
+    with_pref = choice(2, "pref_vector") == 1
+    u = [named(f"u{i}") for i in range(m)]
+    for x in u:
+        assume(x >= 0)
+    cls = UPGrad if agg == "upgrad" else DualProj
+    out = cls(pref_vector=T(u) if with_pref else None, norm_eps=eps, reg_eps=reg)(gram_only(G))
+    w = out._w._flat()
+    uu = u if with_pref else [R(Fraction(1, m))] * m
+    s = sig[0]
+    big = bool(s >= eps)
+    P = [[(G[i][j] / (s * s) if big else R(0)) + (reg if i == j else R(0)) for j in range(m)] for i in range(m)]
+    calls = [e for e in torch.EVENTS if e[0] == "kernel" and e[1] == "solve_qp"]
+    def cex(model):
+        return dict(kind="dualcone_wiring", agg=agg, pref=with_pref, **cex_values(model, G=G, u=uu, norm_eps=eps, reg_eps=reg, weights_model=w))
+    n_calls = m if agg == "upgrad" else 1
+    if len(calls) != n_calls:
+        return [Ob("number_of_quadratic_programs", False, cex)]
+    obs = []
+    for k, e in enumerate(calls):
+        v = e[3]._flat()
+        ucall = uu if agg == "dualproj" else [uu[i] if i == k else R(0) for i in range(m)]
+        mu = [rsum(P[i][j] * v[j] for j in range(m)) for i in range(m)]
+        obs.append(Ob("kernel_answer_is_the_stated_projection", z3.And(*[(mu[i] >= 0).z() for i in range(m)], *[(v[i] >= ucall[i]).z() for i in range(m)],
+                                                                       *[(mu[i] * (v[i] - ucall[i])).eqz(0) for i in range(m)]), cex))
+    comb = [rsum(e[3]._flat()[i] for e in calls) for i in range(m)]
     obs.append(Ob("weights_are_the_sum_of_the_projected_weight_vectors", eq_all(w, comb), cex))
     return obs
 
